@@ -383,8 +383,16 @@ func refStr(v *V, d int) any {
 	if v.O.RootRefs && Pct(v.T, "rootref", 20) {
 		return []string{"#", ""}[Uniform(v.T, "rootrefform", 2)]
 	}
+	if v.O.Hostile && Pct(v.T, "hostileref", 15) {
+		return hostileRefPool[Uniform(v.T, "href", len(hostileRefPool))]
+	}
 	return refPool[Uniform(v.T, "ref", len(refPool))]
 }
+
+// hostileRefPool: canonical references whose text needs JSON string escaping (a URL keeps quotes and
+// backslashes of its query and opaque part as they are).
+var hostileRefPool = []string{`other.json?q="a"#/definitions/x`, `other.json?p=a\b`, `urn:a:b\u0041`, `o.json?x=\n&y=\t`, `http://example.com/s.json?say="hi"`, `urn:quote:"q"`}
+var hostileSchemaURLPool = []string{`http://example.com/meta?a="b"`, `http://example.com/m?p=a\b`, `urn:m:\u0041"x"`}
 
 func fragEscape(name string) string {
 	name = strings.ReplaceAll(strings.ReplaceAll(name, "~", "~0"), "/", "~1")
@@ -463,7 +471,12 @@ func fieldsOf(k, flavour string) []field {
 	case "schema":
 		out := []field{
 			f("id", func(v *V, d int) any { return idPoolV[Uniform(v.T, "id", len(idPoolV))] }),
-			f("$schema", func(v *V, d int) any { return schemaURLPool[Uniform(v.T, "$schema", len(schemaURLPool))] }),
+			f("$schema", func(v *V, d int) any {
+				if v.O.Hostile && Pct(v.T, "hostile$schema", 15) {
+					return hostileSchemaURLPool[Uniform(v.T, "h$schema", len(hostileSchemaURLPool))]
+				}
+				return schemaURLPool[Uniform(v.T, "$schema", len(schemaURLPool))]
+			}),
 			f("$ref", refStr),
 			f("title", str), f("description", str), f("default", free), f("format", str),
 			f("maxProperties", nat), f("minProperties", nat), f("required", strList),
